@@ -89,7 +89,7 @@ META = {
     ),
     "outside": [
         "Arnoldi accuracy, positivity under truncation error (C07, not applicable); Pulser's master-equation reference",
-        "N > 2 atoms, > 2 jump operators; non-Hermitian inputs (the closure is only real-linear)",
+        "N > 3 atoms (N > 2 with more than one jump operator), > 3 jump operators, > 4 steps; non-Hermitian inputs (the closure is only real-linear)",
     ],
     "assumptions": ["jump operators act identically on every atom (Pulser's effective-noise contract)"],
 }
@@ -99,7 +99,7 @@ def cases(tier):
     out = []
     grid = [(1, 2, 1, False, False), (2, 1, 1, True, False), (1, 1, 2, False, True)]
     if tier != "quick":
-        grid += [(2, 2, 2, True, True), (2, 1, 3, False, False), (1, 3, 1, True, False)]
+        grid += [(2, 2, 2, True, True), (2, 1, 3, False, False), (1, 3, 1, True, False), (3, 1, 1, False, False), (2, 3, 1, True, False), (1, 4, 2, False, True)]
     for n, k, ops, slm, init in grid:
         out.append(
             Case(
